@@ -191,6 +191,23 @@ func c15() {
 	faults = append(faults,
 		fault{kind: "dotted-keys-only", policy: str("seccomp.default_action: allow\nseccomp.syscalls:\n- action: errno\n  names:\n  - getppid\n"), args: std()},
 		fault{kind: "groups-under-a-dotted-key", policy: str("seccomp:\n  default_action: allow\nseccomp.syscalls:\n- action: errno\n  names:\n  - getppid\n"), args: std()})
+	// many defects at once (the status of a process keeps only eight bits of whatever is derived from their number)
+	for _, n := range []int{2, 3, 100, 255, 256, 257, 511, 512, 513, 1024, 65536} {
+		var b strings.Builder
+		b.WriteString("seccomp:\n  default_action: allow\n  syscalls:\n  - action: errno\n    names:\n")
+		for k := 0; k < n; k++ {
+			fmt.Fprintf(&b, "    - no_such_syscall_%d\n", k)
+		}
+		faults = append(faults, fault{kind: fmt.Sprintf("%d-unknown-syscalls", n), policy: str(b.String()), args: std()})
+		if n <= 1024 {
+			var g strings.Builder
+			g.WriteString("seccomp:\n  default_action: allow\n  syscalls:\n")
+			for k := 0; k < n; k++ {
+				fmt.Fprintf(&g, "  - action: errno\n    names:\n    - no_such_syscall_%d\n", k)
+			}
+			faults = append(faults, fault{kind: fmt.Sprintf("%d-groups-with-an-unknown-syscall", n), policy: str(g.String()), args: std()})
+		}
+	}
 	for _, sz := range bigSizes {
 		faults = append(faults,
 			fault{kind: fmt.Sprintf("unknown-syscall-after-%d-bytes", sz), policy: str(validYAML + pad(sz) + "  - action: errno\n    names:\n    - no_such_syscall\n"), args: std()},
